@@ -20,7 +20,12 @@ from . import poolmodel as pm
 
 TRUSTED = ["mutual exclusion of the lock (monitor rule)", "A-deque", "contextlib.contextmanager single-yield semantics"]
 ASSUMPTIONS = ["critical sections are atomic with respect to each other because they run under the same mutex",
-               "obj_creator and after_remove do not touch the pool (PooledClient._create_client / Client.close)"]
+               "obj_creator and after_remove do not touch the pool (PooledClient._create_client / Client.close)",
+               "rely condition for the final clause ('idle in the pool or closed exactly once'): no thread clears / closes the pool while another "
+               "still holds a checked-out connection and reconnects it afterwards - clear() closes the checked-out client at that moment, a later "
+               "reconnection by its holder is released silently (object no longer in `used`) and stays open until collected; seen by a sub-agent's "
+               "interleaving harness on the unchanged tree, not decided by these contracts (it is a statement about two critical sections of "
+               "different threads and the holder's code in between)"]
 NOT_COVERED = ["the statement's literal quantifier 'all interleavings at bytecode granularity' - nothing is enumerated",
                "the read-only `used` / `free` properties (unlocked snapshots outside the statement)", "liveness / absence of blocking"]
 BUDGET = {"quick": 30, "thorough": 120}
